@@ -194,6 +194,7 @@ timer_set_absolute (callback_f cb, void *arg, const struct timespec *tsp)
 {
     timer_p  t;
     timer_p *t_prev_ptr;
+    long     id;
     int      do_signal = 0;
 
     if (!cb || !tsp) {
@@ -212,7 +213,7 @@ timer_set_absolute (callback_f cb, void *arg, const struct timespec *tsp)
     if (_timer_id <= 0) {
         _timer_id = 1;
     }
-    t->id = _timer_id;
+    t->id = id = _timer_id;
     t->f = cb;
     t->arg = arg;
     t->ts = *tsp;
@@ -241,8 +242,8 @@ timer_set_absolute (callback_f cb, void *arg, const struct timespec *tsp)
                     "Failed to signal timer condition");
         }
     }
-    assert (t->id > 0);
-    return (t->id);
+    assert (id > 0);
+    return (id);
 }
 
 
